@@ -52,7 +52,8 @@ def prepare(runner):
 
 # concrete inputs of realistic length (harness_concrete entries); written to c20_cases.h in the scratch directory by prepare()
 PRINTF_CASES = ['%d %s %c%%', '%5.3ld|%-8x|%#o', '%2$d %1$s', '%*d %.*s', '%hhu %hd %lld %zu %td %jd %Lu', 'plain text only', '%9$d', "100%% sure: %+05d % i %'u", '%3$s %1$*d',
-                '%1$d%1$d%1$d%1$d', "%-+ #0'12.34lx", '%', '%5', '%.', '%l', 'abc%', '%q %d', '%1$', '%0$d', '%2$d %1$d %2$d', 'x=%2147483647d', 'trailing text %d!']
+                '%1$d%1$d%1$d%1$d', "%-+ #0'12.34lx", '%', '%5', '%.', '%l', 'abc%', '%q %d', '%1$', '%0$d', '%2$d %1$d %2$d', 'x=%2147483647d', 'trailing text %d!',
+                '%hh', '%-4hh', 'abc %-4hh', '%ll', '%h', '%*', '%.*', '%z', '%t', '%j', '%L', '%hhq%d', '%y %d %k']
 FMT_CASES = ['Hello {}!', '{} {:x}', '{:08X}', '{1} {0}', '{{}', '{:h}', '{:03o} {:b} {:d}{:i}', '{', '}', '{:}', '{3}', 'abc{', '{}{}{}{}', '{0:c}{2:c}', '{{{{', '{:0}', '{:12}|{2}', '{18446744073709551616}']
 CMD_CASES = ['a b=12', '"a=x y" ab', 'b=99999999999 a', 'a="q" ab', '  a  ', '"a"', 'x86.nosmp init.exec=/sbin/posix-subsystem b=7', '"unbalanced a', 'a"b', '=', 'a=', 'b=1x a=b=c ab=',
              '"path1=a space/nospace" foo baz=yoo b=1234 "a=/a/b c/d"', '', 'a "', '"" a', 'b=4294967296']
@@ -63,6 +64,7 @@ def pf_loops(n):     # every loop of the directive parser runs at most once per 
 
 def printf_bytes(name, l, defs, what, timeout=1200, optional=False):
     d = {'L': l}; d.update(defs)
+    if d.get('LENIENT'): what = (what + '; ' if what else '') + 'LENIENT agent: unknown conversion characters are accepted (consume nothing), parsing continues behind them'
     return Q(name, 'c20_printf', 'c20_printf.c', 'harness_bytes', defs=d, paths=True, unwind_fn=pf_loops(l), inline_witness=True, witness='any', timeout=timeout, mem_gb=3, optional=optional,
              bounds={'format string': 'EVERY byte string of length <= %d over the full byte alphabet (NUL-terminated at %d)' % (l, l), 'variadic slots': '%d arbitrary 64-bit slots, consumption judged against declared(fmt)' % (9 + l),
                      'restriction': what},
@@ -74,6 +76,13 @@ def queries(tier):
     # ---------------------------------------------------------------- printf_format / pop_arg
     for l in (1, 2, 3):
         qs.append(printf_bytes('printf.bytes.L%d' % l, l, {}, ''))
+    # the same with the lenient agent (a refusing agent stops printf_format at the first bogus conversion character and so hides what the parser does next)
+    qs.append(printf_bytes('printf.lenient.bytes.L1', 1, {'LENIENT': 1}, ''))
+    qs.append(printf_bytes('printf.lenient.bytes.L2', 2, {'LENIENT': 1}, ''))
+    qs.append(printf_bytes('printf.lenient.bytes.L3.pct', 3, {'LENIENT': 1, 'C0': 1}, "byte 0 = '%'"))
+    if not quick:
+        qs.append(printf_bytes('printf.lenient.bytes.L3.text', 3, {'LENIENT': 1, 'C0': 8}, "byte 0 any byte except '%' and NUL"))
+        qs.append(printf_bytes('printf.lenient.bytes.L4.pct', 4, {'LENIENT': 1, 'C0': 1}, "byte 0 = '%'", timeout=7200, optional=True))
     if not quick:
         # L = 4: byte 0 concrete per query where that prunes ('%', NUL); the remainder keeps byte 0 symbolic
         qs.append(printf_bytes('printf.bytes.L4.pct', 4, {'C0': 1}, "byte 0 = '%'", timeout=5400))
@@ -93,6 +102,9 @@ def queries(tier):
         qs.append(Q('printf.concrete.%d' % c, 'c20_printf', 'c20_printf.c', 'harness_concrete', defs={'CASE': c}, paths=True, unwind_fn=pf_loops(len(t)), inline_witness=True, witness='any', timeout=300, mem_gb=3,
                     bounds={'format': 'the concrete format string %r' % t, 'variadic slots': 'exactly declared(fmt), arbitrary values'},
                     what='printf_format on a concrete realistic format with exactly the declared number of variadic slots'))
+        qs.append(Q('printf.lenient.concrete.%d' % c, 'c20_printf', 'c20_printf.c', 'harness_concrete', defs={'CASE': c, 'LENIENT': 1}, paths=True, unwind_fn=pf_loops(len(t)), inline_witness=True, witness='any', timeout=300, mem_gb=3,
+                    bounds={'format': 'the concrete format string %r' % t, 'variadic slots': 'exactly declared(fmt), arbitrary values', 'agent': 'lenient: unknown conversion characters accepted, consuming nothing'},
+                    what='printf_format with the LENIENT agent on a concrete format (truncated directives, unknown conversions) with exactly the declared number of variadic slots'))
     # ---------------------------------------------------------------- fmt()
     for c, t in enumerate(FMT_CASES):
         qs.append(Q('fmt.concrete.%d' % c, 'c20_fmt', 'c20_fmt.c', 'harness_concrete', defs={'CASE': c, 'VARIANT': 1}, paths=True, unwind_fn=[(r'print_digits', 70), (r'.', len(t) + 3)], inline_witness=True, witness='any',
@@ -145,7 +157,7 @@ TECHNIQUE = ('bounded symbolic execution of the clang-lowered real code with CBM
              'path merging for to_number; pointer/bounds checks on, UB assertions from ir2c --ub-checks, exact-size input objects, hand-built va_list over an exact-size slot array')
 FUNCTION_PATTERNS = [r'frg::', r'^c20_']
 ASSUMPTIONS = [
-    'printf: the agent is a stub that accepts the conversions c p s d i o x X u (pop_arg<char>, <void*>, <int> or <long> by size modifier) and refuses every other conversion character; '
+    'printf: the agent is a stub that accepts the conversions c p s d i o x X u (pop_arg<char>, <void*>, <int> or <long> by size modifier); every other conversion character is refused (agent_error: printf_format returns) by the strict variant and accepted without consuming an argument by the LENIENT variant (printf.lenient.* queries); '
     'va_list built by hand for the x86-64 SysV layout with both register save areas exhausted, so every va_arg takes the next 8-byte stack slot',
     'printf: declared(fmt) = number of `*` and consuming conversions for sequential formats, the largest n$ for positional formats, their SUM for formats that mix both styles (undefined in POSIX; judged leniently); `0$` is not a position',
     'printf arg_list (positional cache) has exactly 9 entries (positions 1$..9$ are all the parser can express)',
